@@ -15,7 +15,8 @@ func init() { register("C37", c37) }
 func c37(r *core.Run) {
 	r.Explanation = "Decided clauses: (R1) boundaries: the recover() sites of lexer.run, parser.ParseTokenStream and sema.Checker.Check convert every panic into a returned error exactly as reviewed (arm summaries of the C01 table); " +
 		"(R2) resource bounds: parseExpression and parseType increase their depth counter only after the `depth == limit` test failed (returning the depth-limit error otherwise) and decrease it in a deferred function; the lexer's emit appends a token only after the token-limit test; " +
-		"(R3) the pooled lexer resets every field before reuse (C36.R1), so positions cannot depend on an earlier input."
+		"(R3) the pooled lexer resets every field before reuse (C36.R1), so positions cannot depend on an earlier input; " +
+		"(R4) in parser, lexer and checker a slice x[L:len(x)-K] is taken only under an established len(x) ≥ L+K; (R5) the result of a comma-ok type assertion is dereferenced only where ok is known true or the value non-nil (sites unguarded on the reviewed tree are a recorded baseline)."
 	r.NotDecided = "termination of backtracking, position arithmetic, absence of Go run-time panics on arbitrary byte strings."
 	w := r.W
 	// R1
@@ -127,4 +128,198 @@ func c37(r *core.Run) {
 	r.Floor("R2.limits", 7)
 	_ = types.Typ
 	_ = strings.TrimSpace
+	c37Crashes(r)
+}
+
+// c37Crashes: R4/R5 — two Go run-time panics the front end can raise on well-formed-but-unusual input, decided on the SSA
+// form of parser, parser/lexer and sema:
+// R4.slices: a slice expression x[L : len(x)-K] (constant L, K > 0) is dominated by a branch that establishes len(x) ≥ L+K;
+// R5.commaok: the value of a comma-ok type assertion to a pointer type is dereferenced (field access) only where the ok flag
+// is known to be true or the value is known to be non-nil. Sites that were unguarded on the reviewed tree are a recorded baseline.
+func c37Crashes(r *core.Run) {
+	w := r.W
+	pkgs := map[string]bool{mod + "/parser": true, mod + "/parser/lexer": true, mod + "/sema": true}
+	var all []*ssa.Function
+	var collect func(f *ssa.Function)
+	collect = func(f *ssa.Function) {
+		all = append(all, f)
+		for _, a := range f.AnonFuncs {
+			collect(a)
+		}
+	}
+	for _, fn := range w.SrcFuncs() {
+		if fn.Pkg != nil && pkgs[fn.Pkg.Pkg.Path()] && fn.Parent() == nil {
+			collect(fn)
+		}
+	}
+	stripConv := func(v ssa.Value) ssa.Value {
+		for {
+			switch x := v.(type) {
+			case *ssa.Convert:
+				v = x.X
+			case *ssa.ChangeType:
+				v = x.X
+			default:
+				return v
+			}
+		}
+	}
+	lenOf := func(v ssa.Value) ssa.Value {
+		if c, ok := stripConv(v).(*ssa.Call); ok {
+			if b, ok := c.Call.Value.(*ssa.Builtin); ok && b.Name() == "len" {
+				return c.Call.Args[0]
+			}
+		}
+		return nil
+	}
+	constInt := func(v ssa.Value) (int64, bool) {
+		c, ok := stripConv(v).(*ssa.Const)
+		if !ok || c.Value == nil {
+			return 0, false
+		}
+		return c.Int64(), true
+	}
+	nslice, ncomma := 0, 0
+	gotSlices := map[string]int{}
+	gotComma := map[string]int{}
+	for _, fn := range all {
+		top := fn
+		for top.Parent() != nil {
+			top = top.Parent()
+		}
+		for _, b := range fn.Blocks {
+			for _, in := range b.Instrs {
+				switch x := in.(type) {
+				case *ssa.Slice:
+					if x.High == nil {
+						continue
+					}
+					var l int64
+					if x.Low != nil {
+						var okL bool
+						if l, okL = constInt(x.Low); !okL {
+							continue
+						}
+					}
+					// the upper bound, or each value a phi upper bound can take together with the point where it is chosen
+					type cand struct {
+						v   ssa.Value
+						ctx ssa.Instruction
+					}
+					cands := []cand{{x.High, in}}
+					if phi, isPhi := stripConv(x.High).(*ssa.Phi); isPhi {
+						cands = nil
+						for i, e := range phi.Edges {
+							pb := phi.Block().Preds[i]
+							cands = append(cands, cand{e, pb.Instrs[len(pb.Instrs)-1]})
+						}
+					}
+					for _, cd := range cands {
+						bo, ok := stripConv(cd.v).(*ssa.BinOp)
+						if !ok || bo.Op != token.SUB {
+							continue
+						}
+						k, ok := constInt(bo.Y)
+						if !ok || k <= 0 {
+							continue
+						}
+						lenVal := stripConv(bo.X) // the length value (len(x) or a variable holding it)
+						need := l + k
+						nslice++
+						guarded := false
+						for _, a := range core.ControllingConds(cd.ctx) {
+							cmp, ok := a.Var.Call.(*ssa.BinOp)
+							if !ok {
+								continue
+							}
+							lhs, rhs := stripConv(cmp.X), stripConv(cmp.Y)
+							sameLen := func(v ssa.Value) bool {
+								if v == lenVal {
+									return true
+								}
+								a1, a2 := lenOf(v), lenOf(lenVal)
+								return a1 != nil && a2 != nil && a1 == a2
+							}
+							c, isC := constInt(rhs)
+							if !sameLen(lhs) || !isC {
+								continue
+							}
+							op := cmp.Op
+							val := a.Val
+							// normalise to a lower bound on the length
+							switch {
+							case op == token.GEQ && val && c >= need, op == token.GTR && val && c+1 >= need,
+								op == token.LSS && !val && c >= need, op == token.LEQ && !val && c+1 >= need,
+								op == token.EQL && val && c >= need:
+								guarded = true
+							}
+						}
+						key := core.SSAKey(top) + ": x[" + itoa(int(l)) + ":len-" + itoa(int(k)) + "]"
+						if !guarded {
+							gotSlices[key]++
+						}
+					}
+				case *ssa.FieldAddr:
+					ex, ok := x.X.(*ssa.Extract)
+					if !ok || ex.Index != 0 {
+						continue
+					}
+					ta, ok := ex.Tuple.(*ssa.TypeAssert)
+					if !ok || !ta.CommaOk {
+						continue
+					}
+					if _, isPtr := ta.AssertedType.Underlying().(*types.Pointer); !isPtr {
+						continue
+					}
+					ncomma++
+					guarded := false
+					for _, a := range core.ControllingConds(in) {
+						switch c := a.Var.Call.(type) {
+						case *ssa.Extract:
+							if c.Tuple == ex.Tuple && c.Index == 1 && a.Val {
+								guarded = true
+							}
+						case *ssa.BinOp:
+							isNil := func(v ssa.Value) bool { k, ok := v.(*ssa.Const); return ok && k.IsNil() }
+							if (c.X == ssa.Value(ex) && isNil(c.Y)) || (c.Y == ssa.Value(ex) && isNil(c.X)) {
+								if (c.Op == token.NEQ && a.Val) || (c.Op == token.EQL && !a.Val) {
+									guarded = true
+								}
+							}
+						}
+					}
+					if !guarded {
+						gotComma[core.SSAKey(top)+": "+types.TypeString(ta.AssertedType, shortQual)+" dereferenced"]++
+					}
+				}
+			}
+		}
+	}
+	if genMode() {
+		genJSON(r, "c37_unguarded_slices", gotSlices)
+		genJSON(r, "c37_unguarded_commaok", gotComma)
+		return
+	}
+	for _, x := range []struct {
+		rule, table, why string
+		got  map[string]int
+		n    int
+	}{
+		{"R4.slices", "c37_unguarded_slices", "a slice x[L:len(x)-K] is taken without an established len(x) ≥ L+K: an input one byte short raises a Go slice-bounds panic, reported as an internal error instead of a syntax error", gotSlices, nslice},
+		{"R5.commaok", "c37_unguarded_commaok", "the result of a comma-ok type assertion is dereferenced where the ok flag is not known to be true: an ill-typed but parseable program raises a nil-pointer panic in the checker instead of a semantic error", gotComma, ncomma},
+	} {
+		var base map[string]int
+		if !r.Table(x.table, &base) {
+			continue
+		}
+		for _, k := range sortedKeys(x.got) {
+			if x.got[k] <= base[k] {
+				r.OK(x.rule, k, 0, "unguarded on the reviewed tree as well (recorded baseline: protected by an invariant this rule does not see)")
+			} else {
+				r.Bad(x.rule, k, 0, x.why)
+			}
+		}
+		r.OK(x.rule, "front-end scan", 0, itoa(x.n)+" sites examined")
+		r.Floor(x.rule, 1)
+	}
 }
